@@ -564,22 +564,21 @@ Qed.
 (* ====================================================================== *)
 (* a successful decomposition of singleton groups over distinct indices was a `valid` request (C14's vocabulary) *)
 Lemma decompose_ok_valid env c nc ids ms r :
-  decompose env c nc ids (Some ms) = Ok r ->
+  decompose env c nc ids (Some (map Some ms)) = Ok r ->
   NoDup (concat ids) -> (forall g, In g ids -> length g = 1) ->
   valid env c ids ms.
 Proof.
   unfold decompose. intros H Hnd H1.
   apply res_bind_ok in H as ([] & Hv & H). apply res_bind_ok in H as (c1 & Hs & _).
   pose proof (validate_ok c ids Hv) as (Hg & Hc).
-  unfold set_basis_ids in Hs.
+  unfold set_basis_ids in Hs. rewrite map_length in Hs.
   destruct (Nat.eqb (length ids) (length ms)) eqn:El; simpl in Hs; [|discriminate].
-  apply Nat.eqb_eq in El.
+  apply Nat.eqb_eq in El. rewrite all_some_map_Some in Hs.
   rewrite assign_loop_char in Hs by (apply valid_members_placeholders, Hg).
   destruct (maps_in_range env c (combine ids ms)) eqn:Er; [|discriminate].
-  split; [split; [exact Hv|split; [exact Hnd|]]|split; [now symmetry|]].
-  - intros g p Hg' _ _. now apply H1.
-  - intros g m p Hgm Hp. unfold maps_in_range in Er. rewrite forallb_forall in Er.
-    specialize (Er (g, m) Hgm). cbn [fst snd] in Er. rewrite forallb_forall in Er. now apply Er.
+  split; [exact Hv|split; [now symmetry|]].
+  intros g m p Hgm Hp. unfold maps_in_range in Er. rewrite forallb_forall in Er.
+  specialize (Er (g, m) Hgm). cbn [fst snd] in Er. rewrite forallb_forall in Er. now apply Er.
 Qed.
 
 Lemma find_obs_creg_app regs bits rest :
@@ -624,6 +623,7 @@ Proof.
   unfold append_measurement_register in Hq1.
   destruct (existsb fst (mcregs qc)) eqn:Ereg; [discriminate|].
   inversion Hq1; subst q1; clear Hq1. cbn [mdata mnc mnq mcregs] in *.
+  rewrite <- (map_map Z.of_nat Some) in Hd.
   pose proof (decompose_ok_valid _ _ _ _ _ _ Hd Hnd H1) as Hv.
   rewrite (decompose_splice _ _ _ _ _ Hv) in Hd. inversion Hd; subst dk; clear Hd.
   unfold spec in H. cbn [fst snd] in H.
@@ -643,6 +643,35 @@ Proof.
   inversion H; subst e; clear H.
   split; [exact Hv|split; [reflexivity|split; [now symmetry|]]].
   unfold spec_exp. now rewrite <- En.
+Qed.
+
+(* totality of the per-circuit step: a valid decomposition request, no earlier observable_measurements register,
+   observables of the circuit's width and measured qubits inside the circuit ALWAYS produce the declared circuit *)
+Theorem build1_total gh gsx env qc ids ms g :
+  valid env (mdata qc) ids (map Z.of_nat ms) ->
+  existsb fst (mcregs qc) = false ->
+  length (og_general g) = mnq qc ->
+  (forall s, In s (pauli_indices_or_dummy (og_indices g)) -> s < mnq qc) ->
+  build1 gh gsx env qc ids ms g = Ok (spec_exp gh gsx env qc ids ms g).
+Proof.
+  intros Hv Hreg Hn Hidx. unfold build1, append_measurement_register. rewrite Hreg. cbn [res_bind mdata mnc mnq mcregs].
+  rewrite <- (map_map Z.of_nat Some), (decompose_splice _ _ _ _ _ Hv). cbn [res_bind]. unfold spec. cbn [fst snd].
+  fold (nobs g). fold (spliced env qc ids ms). fold (nqpd env qc ids ms).
+  set (Q3 := match og_indices g with [] => _ | _ :: _ => _ end).
+  assert (HQ3 : Q3 = mkMC (mnq qc) (mnc qc + nobs g + nqpd env qc ids ms)
+                       ((mcregs qc ++ [(true, seq (mnc qc) (nobs g))]) ++ [(false, seq (mnc qc + nobs g) (nqpd env qc ids ms))])
+                       (body env qc ids ms g)).
+  { unfold Q3, body, with_data. destruct (og_indices g); reflexivity. }
+  rewrite HQ3. clear Q3 HQ3.
+  unfold append_measurement_circuit. cbn [mnq mnc mcregs mdata].
+  rewrite <- Hn, Nat.eqb_refl. cbn [negb].
+  rewrite <- app_assoc. cbn [app]. rewrite (find_obs_creg_app _ _ _ Hreg).
+  rewrite seq_length. fold (nobs g). rewrite Nat.eqb_refl. cbn [negb].
+  assert (Hf : forallb (fun sub => Nat.ltb (nth sub (seq 0 (length (og_general g))) (length (og_general g))) (length (og_general g)))
+                       (pauli_indices_or_dummy (og_indices g)) = true).
+  { apply forallb_forall. intros sub Hs. specialize (Hidx sub Hs). rewrite <- Hn in Hidx.
+    rewrite seq_nth by exact Hidx. apply Nat.ltb_lt. exact Hidx. }
+  rewrite Hf. cbn [negb]. unfold spec_exp. now rewrite <- Hn.
 Qed.
 
 (* no placeholder and no qpd_measure marker survives; the measurement suffix consists of gates and measurements *)
@@ -692,9 +721,9 @@ Qed.
 
 (* ... and QPD bit k is clbit nc0 + nobs + k: the markers of the spliced stream, in order, write exactly those bits *)
 Lemma qpd_bits nc s :
-  flat_map ics (select (map is_marker s) (measures_numbered nc s)) = seq nc (count_markers s).
+  flat_map ics (DecomposeP.select (map is_marker s) (measures_numbered nc s)) = seq nc (count_markers s).
 Proof.
-  unfold measures_numbered, count_markers, select. revert nc.
+  unfold measures_numbered, count_markers, DecomposeP.select. revert nc.
   induction s as [|x s IH]; intros nc; [reflexivity|].
   cbn [map measures_from]. destruct (is_marker x) eqn:E; cbn [combine filter snd map fst flat_map ics length app].
   - rewrite E. cbn [combine filter snd map fst flat_map ics length app seq]. f_equal. apply IH.
